@@ -213,7 +213,7 @@ def _c04_ss_confirm(test_src, rdir):
 
 
 _c04 = [
-    H("c04_ss_step_u16_m2", 2400, "quick", "SetSketcher<u16>::sketch from an arbitrary Inv-state: registers == max(old, unpruned contribution of the item), Inv kept, shuffle reset", "m=2, any registers, any (b,a,q<2^40), any item, any generator output", stubs=_LN, native_confirm=_c04_ss_confirm),
+    H("c04_ss_step_u16_m2", 2400, "thorough", "SetSketcher<u16>::sketch from an arbitrary Inv-state: registers == max(old, unpruned contribution of the item), Inv kept, shuffle reset", "m=2, any registers, any (b,a,q<2^40), any item, any generator output", stubs=_LN, native_confirm=_c04_ss_confirm),
     H("c04_ss_step_u32_m2", 2400, "thorough", "SetSketcher<u32>::sketch step", "m=2", stubs=_LN, native_confirm=_c04_ss_confirm),
     H("c04_smh_step_f64_m2", 1800, "quick", "SuperMinHash<f64>::sketch from an arbitrary Inv-state: hsketch == position-wise min(old, unpruned contribution of the item); histogram/upper-bound invariant kept", "m=2"),
     H("c04_smh_step_f64_m3", 2400, "quick", "same", "m=3"),
@@ -237,8 +237,8 @@ SPECS["C04"] = dict(
     level="model_checking", harnesses=_c04, lemmas=[__import__("pmhv").lemma_wmul_allones],
     functions=["SuperMinHash::sketch (f64, f32)", "SuperMinHash2::sketch (u64)", "SetSketcher::sketch (u16, u32)", "OptDensMinHash::sketch", "RevOptDensMinHash::sketch",
                "FYshuffle::{reset,next}", "rand::distr::Uniform<f64|f32|usize|u64>::sample (vendored rand, rejection loop cut)", "NoHashHasher"],
-    bounds={"quick": "SuperMinHash f64 m in {2,3}; SuperMinHash2 m=2 (+ first item m=3); SetSketch u16 m=2 (a=16, ln b=1/2 concrete); OptDens m in {2,3}; RevOptDens m=3; one symbolic item per step, stream length unbounded by induction",
-            "thorough": "SuperMinHash f64/f32 m in {2,3,4}; SuperMinHash2 m in {2,3,4}; SetSketch u16 m=2, u32 m=2 (m=3 does not finish within 60 min: not registered); OptDens m in 1..=4; RevOptDens m in 2..=4"},
+    bounds={"quick": "SuperMinHash f64 m in {2,3}; SuperMinHash2 m=2 (+ first item m=3); OptDens m in {2,3}; RevOptDens m=3; one symbolic item per step, stream length unbounded by induction (the SetSketch step takes 10 min and is in the thorough tier: quick checks are stopped after 900 s)",
+            "thorough": "SuperMinHash f64/f32 m in {2,3,4}; SuperMinHash2 m in {2,3,4}; SetSketch u16 m=2 and u32 m=2 with a=16, ln b=1/2 concrete (m=3 does not finish within 60 min: not registered); OptDens m in 1..=4; RevOptDens m in 2..=4"},
     outside="sketch sizes above the listed ones; exact (level, value) ties between DIFFERENT items in SuperMinHash2 are resolved by the code as 'later item wins' (64-bit values: probability 2^-64 per pair): the lemma is stated with that tie rule; the densified sketchers keep the minimum of (r, hash), so their ties are order independent (repaired, D8); SetSketch: the half-ulp boundary where the float subtraction 1 - log_b(x) rounds up onto an integer (there the code's two pruning tests differ by one unit) is excluded by assumption; chunking/sketch_slice for SuperMinHash*/SetSketch is a plain loop over sketch (read, not encoded); densified sketch_slice vs item-wise is c09_*_slice_*",
     assumptions=["per-item generator = memoised oracle keyed by the item hash (models/rand_xoshiro); Exp1 = arbitrary finite f64 >= 0 that is a function of one draw (models/rand_distr); Lemire rejections excluded (models/rand)",
                  "representation invariants written in the harness files (SuperMinHash: b[] = histogram of clamped integer parts, a_upper = its top, lazy-reset marker < item_rank; SuperMinHash2: b[] = histogram of levels; SetSketch: lower_k integral and <= min register; densified: nb_empty counts unpopulated bins which hold the initial pair): base case = C13 harnesses, preservation = these harnesses",
@@ -278,8 +278,8 @@ _c09 = [
     H("c09_opt_densify_m4_p14", 1800, "thorough", "OptDensMinHash::end_sketch from any Inv-state with populated bins = bit mask 0b1110: populated bins bit-identical, every other bin gets the (value,hash) pair of a previously populated bin, nb_empty==0, stream keys depend on the bin position only, second end_sketch changes nothing", "m=4; searches of <= 5 draws per empty bin", extra=_NU),
     H("c09_rev_densify_m1_p1", 1800, "thorough", "RevOptDensMinHash::end_sketch, populated bins = bit mask 0b1, same assertions; stream keys depend on (position, pass) only", "m=1; <= 3 passes", extra=_NU),
     H("c09_rev_densify_m2_p1", 1800, "thorough", "RevOptDensMinHash::end_sketch, populated bins = bit mask 0b1, same assertions; stream keys depend on (position, pass) only", "m=2; <= 3 passes", extra=_NU),
-    H("c09_rev_densify_m2_p2", 1800, "quick", "RevOptDensMinHash::end_sketch, populated bins = bit mask 0b10, same assertions; stream keys depend on (position, pass) only", "m=2; <= 3 passes", extra=_NU),
-    H("c09_rev_densify_m3_p1", 1800, "quick", "RevOptDensMinHash::end_sketch, populated bins = bit mask 0b1, same assertions; stream keys depend on (position, pass) only", "m=3; <= 4 passes", extra=_NU),
+    H("c09_rev_densify_m2_p2", 1800, "thorough", "RevOptDensMinHash::end_sketch, populated bins = bit mask 0b10, same assertions; stream keys depend on (position, pass) only", "m=2; <= 3 passes", extra=_NU),
+    H("c09_rev_densify_m3_p1", 1800, "thorough", "RevOptDensMinHash::end_sketch, populated bins = bit mask 0b1, same assertions; stream keys depend on (position, pass) only", "m=3; <= 4 passes", extra=_NU),
     H("c09_rev_densify_m3_p2", 1800, "thorough", "RevOptDensMinHash::end_sketch, populated bins = bit mask 0b10, same assertions; stream keys depend on (position, pass) only", "m=3; <= 4 passes", extra=_NU),
     H("c09_rev_densify_m3_p3", 1800, "thorough", "RevOptDensMinHash::end_sketch, populated bins = bit mask 0b11, same assertions; stream keys depend on (position, pass) only", "m=3; <= 4 passes", extra=_NU),
     H("c09_rev_densify_m3_p4", 1800, "thorough", "RevOptDensMinHash::end_sketch, populated bins = bit mask 0b100, same assertions; stream keys depend on (position, pass) only", "m=3; <= 4 passes", extra=_NU),
@@ -303,7 +303,7 @@ _c09 = [
 SPECS["C09"] = dict(
     level="model_checking", harnesses=_c09,
     functions=["OptDensMinHash::{sketch, sketch_slice, end_sketch, densify, get_hsketch, get_hsketch_u64, get_hsketch_u32}", "RevOptDensMinHash::{same}", "murmur3::murmur3_32", "rand::distr::Uniform<usize>::sample"],
-    bounds={"quick": "m in {2,3}; densification searches up to the unwinding bound (4-5 draws per empty bin / passes)", "thorough": "m in {1,2,3,4}"},
+    bounds={"quick": "OptDens densification m in {2,3} (3 population patterns), slice == item-wise from full states (both sketchers), views, empty-stream fail-fast (both sketchers); RevOptDens densification is in the thorough tier (6-10 min per pattern: quick checks are stopped after 900 s)", "thorough": "m in {1,2,3,4}"},
     outside="searches longer than the unwinding bound (the harnesses run with --no-unwinding-checks: executions that need more draws are cut by an assumption; that the real ChaCha12 stream hits a populated bin at all is outside the claim because ChaCha12 does not encode); m > 4",
     assumptions=["ChaCha12Rng = memoised oracle keyed by its seed (models/rand_chacha); Lemire rejections excluded",
                  "pre-state invariant Inv (nb_empty counts the unpopulated bins, unpopulated bins hold the initial pair, populated bins hold r in [0,1)): base case C13, preserved by sketch (c04_*_step_*)",
@@ -318,7 +318,8 @@ SPECS["C09"] = dict(
 
 # --------------------------------------------------------------------------------------- C02
 _c02 = [
-    H("c02_pmh3_step_m2_n3_w1", 1800, "quick", "ProbMinHash3::hash_item step lemma, weight 1", "m=2, 3 points, weight 1.0"),
+    H("c02_pmh3_step_m2_n2_w1", 1200, "quick", "ProbMinHash3::hash_item step lemma, weight 1, first 2 points of the item", "m=2, 2 points, weight 1.0, states with max register <= 2/w"),
+    H("c02_pmh3_step_m2_n3_w1", 1800, "thorough", "ProbMinHash3::hash_item step lemma, weight 1", "m=2, 3 points, weight 1.0"),
     H("c02_pmh3_step_m3_n4_w1", 5400, "thorough", "same", "m=3, 4 points, weight 1.0"),
     H("c02_pmh2_step_m2_w1", 1800, "quick", "ProbMinHash2::hash_item step lemma, weight 1", "m=2, weight 1.0"),
     H("c02_pmh3_step_m2_n3", 3600, "thorough", "ProbMinHash3::hash_item from an arbitrary state (tracker Inv): registers == min(old, best point per position of the item's unpruned race), signature follows the strict minimum, tracker Inv kept", "m=2, first 3 points of the item, weight = any 2^e (|e|<=40), states with max register <= 3/w"),
@@ -434,7 +435,7 @@ _c12h = [
     H("c12_smh2_m2", 1800, "thorough", "two SuperMinHash2: same item -> identical", "m=2"),
     H("c12_optdens_m2", 1800, "quick", "two OptDensMinHash: same item -> identical bins", "m=2"),
     H("c12_revdens_m2", 1800, "thorough", "two RevOptDensMinHash: same item -> identical bins", "m=2"),
-    H("c12_pmh2_m2", 1800, "quick", "two ProbMinHash2: same weighted item -> identical signature and registers", "m=2, weight any 2^e"),
+    H("c12_pmh2_m2", 1800, "thorough", "two ProbMinHash2: same weighted item -> identical signature and registers", "m=2, weight any 2^e"),
 ]
 SPECS["C12"] = dict(
     level="model_checking", custom=_c12, harnesses=_c12h,
